@@ -179,6 +179,20 @@ def run_fidelity(spec, ctx):
     the SimPool stream of some worker identity. A mismatch is a harness failure (the stub is unfaithful), not a verdict."""
     f = spec["fidelity"]
     cfg, pk = f["cfg"], f["pool_kwargs"]
+    # the real pool is the one thing in this harness whose schedule nobody controls; a stub that is unfaithful mismatches on
+    # every attempt, a hiccup of the real pool on a loaded machine (a worker replaced by the pool) does not
+    last = None
+    for attempt in range(3):
+        r = _fidelity_once(cfg, pk)
+        if not (isinstance(r, dict) and "__harness__" in r):
+            if attempt:
+                r.setdefault("stats", {})["fidelity_retries"] = attempt
+            return r
+        last = r
+    return last
+
+
+def _fidelity_once(cfg, pk):
     real = core.stage(st_real_pool, cfg, pk, timeout=300.0)
     n = cfg["n_mazes"]
     procs = pk.get("processes", 2)
